@@ -181,8 +181,12 @@ func TestVerifC13Stream(t *testing.T) {
 	c.Floor("magic+payload-coalesced/stream", 0.15)
 	c.Floor("refpad-extreme/mixed", 0.30)
 	c.Floor("refpad-total-8194/mixed", 0.04)
-	c.Floor("realpad-extreme/stream", 0.15) // the steering of the real side's padding draw works
-	c.Floor("realpad-total-8194/stream", 0.03)
+	// The steering of the real side's padding draws presupposes how the code draws
+	// them (one 8-byte read behind csrand.IntRange).  Its floors are therefore
+	// relative to the cases in which the steering was seen to take effect at all:
+	// an implementation that draws its padding differently simply runs unsteered.
+	c.Floor("realpad-extreme/pad-steering-took-effect", 0.50)
+	c.Floor("realpad-total-8194/pad-steering-took-effect", 0.10)
 	c.Floor("ctr-32bit-carry-crossed/mixed", 0.10)
 	c.Floor("ctr-24bit-carry-crossed/mixed", 0.15)
 	c.Floor("ctr-16bit-carry-crossed/mixed", 0.20)
@@ -406,6 +410,9 @@ func vfC13StreamCase(rt *rapid.T, c *ev.Collector) {
 	}
 	if realExtreme {
 		cls = append(cls, "realpad-extreme")
+	}
+	if s.forcer != nil && s.forcer.fired > 0 {
+		cls = append(cls, "pad-steering-took-effect")
 	}
 	if wireCap[0] > 0 || wireCap[1] > 0 {
 		cls = append(cls, "wire-read-cap")
